@@ -152,15 +152,19 @@ def run(ctx):
         return
     hist = next((o for o in obs if o["kind"] == "hist"), None)
     histdef = "Definition hist0 : list (N * N * N) := %s.\n" % t3(hist["h"] if hist else [])
-    shard = {"enc": 250, "modes": 1, "fromos": 1, "hist": 1, "conc": 1, "mapseq": 6, "mapconc": 2, "fsconc": 2}
-    groups, cur, curk = [], [], None
-    for i, o in enumerate(obs):
-        k = o["kind"]
-        if cur and (k != curk or len(cur) >= shard.get(k, 50)):
+    # shards: greedy by text size; every modes table alone; hist and conc together (they share hist0)
+    groups, cur, size = [], [], 0
+    order = sorted(range(len(obs)), key=lambda i: (obs[i]["kind"] in ("hist", "conc"), obs[i]["kind"] == "modes", i))
+    texts_of = {i: "(%s)" % to_case(obs[i]) for i in range(len(obs))}
+    prev = None
+    for i in order:
+        cls = "h" if obs[i]["kind"] in ("hist", "conc") else "m" if obs[i]["kind"] == "modes" else "x"
+        if cur and (cls != prev or cls == "m" or size + len(texts_of[i]) > 150_000):
             groups.append(cur)
-            cur = []
+            cur, size = [], 0
         cur.append(i)
-        curk = k
+        size += len(texts_of[i])
+        prev = cls
     if cur:
         groups.append(cur)
     texts = []
@@ -169,7 +173,7 @@ def run(ctx):
         texts.append(HEADER + (histdef if need_hist else "") +
                      "Definition cases : list c20case := [\n  %s\n].\n"
                      "Definition M := Eval vm_compute in mismatches cases.\nPrint M.\n"
-                     "Definition P := Eval vm_compute in property_failures cases.\nPrint P.\n" % ";\n  ".join("(%s)" % to_case(obs[i]) for i in g))
+                     "Definition P := Eval vm_compute in property_failures cases.\nPrint P.\n" % ";\n  ".join(texts_of[i] for i in g))
     res = ctx.coq_eval_shards("C20_cases", texts, ["M", "P"], timeout=1500, workers=12)
     nm_ = 0
     for g, r in zip(groups, res):
